@@ -45,10 +45,14 @@ type history struct {
 // genHistory generates the seeded history of a backend.
 func genHistory(rng *rand.Rand, def *backendDef, caps sto.Caps, hasPreload, canReopen bool, nops int) (*history, error) {
 	h := &history{Removed0: -1}
-	h.Universe = sto.Universe(rng, sto.GenOpts{N: 66, MaxSize: 5000, Hashes: true})
+	nUni := 66
+	if def.Long {
+		nUni = longReceives + 30
+	}
+	h.Universe = sto.Universe(rng, sto.GenOpts{N: nUni, MaxSize: 5000, Hashes: true})
 	nSmall := len(h.Universe)
 	var filePart []int
-	if def.Kind == "blobpacked" {
+	if def.Kind == "blobpacked" || def.LargeFile {
 		content := make([]byte, 560<<10+rng.Intn(60<<10))
 		rng.Read(content)
 		_, fb, err := sto.FileBlobs(fmt.Sprintf("file-%d.bin", rng.Int63()), content)
@@ -136,10 +140,17 @@ func genHistory(rng *rand.Rand, def *backendDef, caps sto.Caps, hasPreload, canR
 
 	// phase A: initial content
 	nInit := 8
+	if def.Long {
+		nInit = longReceives
+	}
 	if !caps.Receive {
 		nInit = 1 // a refused receive
 	}
 	for i := 0; i < nInit; i++ {
+		if def.Long {
+			receive(i) // distinct by construction: the i-th receive writes the i-th small meta blob
+			continue
+		}
 		receive(pickAbsent())
 	}
 	// the file whose last blob triggers packing (blobpacked only)
